@@ -23,6 +23,9 @@ EXPLANATION = (
 EXPLANATION += (  # round-3 supplement
     ' A6 every type erasure in List<T> and the value stored by Constant::new is T::Transformed. A7 types Rust passes by pointer are not elided from signatures (known finding). A1 requires exactly repr(u8).'
 )
+EXPLANATION += (
+    ' A8 (= C18.I8) the Roto type under which a script reads a registered Rust value is built from the Rust type description constructor by constructor with the components in the same order.'
+)
 ASSUMPTIONS = [
     "rustc's layout_of is the oracle for the layout of the Rust-side types",
     "context field offsets produced by offset_of! inside the proc-macro's quote! template are not resolved code and are not decided",
@@ -612,6 +615,19 @@ def rule_a7(F):
     return r
 
 
+def rule_a8(F):
+    """A value of Rust type Result<T, E> / Verdict<A, R> / Option<T> that a registered function or constant hands to a script is read
+    there with the Roto type derived from the Rust type description: the same constructor with the components in the same order
+    (otherwise the script reads the Ok payload with E's type and offset).  Shared with C18.I8."""
+    from . import c18
+    r = c18.rule_i8(F)
+    r.rule = "C05.A8"
+    r.desc = "the Roto type under which a script reads a registered Rust value has the constructor and component order of the Rust type"
+    for v in r.violations:
+        v.rule = "C05.A8"
+    return r
+
+
 def rules(ctx):
     F = ctx["F"]
-    return [rule_a1(F), rule_a2(F), rule_a3(F), rule_a4(F), rule_a5(F), rule_a6(F), rule_a7(F)]
+    return [rule_a1(F), rule_a2(F), rule_a3(F), rule_a4(F), rule_a5(F), rule_a6(F), rule_a7(F), rule_a8(F)]
